@@ -1345,10 +1345,11 @@ class CaseTable(object):
                 for global_iter in self._global_iterations:
                     record_type, source = global_iter[1], global_iter[3]
                     if record_type == table:
-                        if not source.startswith('root'):
-                            sources.add('root.' + source)
-                        else:
+                        # (a subsystem may have a name that merely starts with 'root')
+                        if source == 'root' or source.startswith('root.'):
                             sources.add(source)
+                        else:
+                            sources.add('root.' + source)
                 self._sources = sources
             else:
                 self._sources = set([self._get_source(case) for case in self.list_cases()])
@@ -1690,7 +1691,9 @@ class SolverCases(CaseTable):
                 for global_iter in self._global_iterations:
                     record_type, row, source = global_iter[1], global_iter[2], global_iter[3]
                     if record_type == 'solver' and 0 < row <= len(keys):
-                        srcs[keys[row - 1]] = source if source.startswith('root') else 'root.' + source
+                        if not (source.startswith('root.') or source == 'root'):
+                            source = 'root.' + source
+                        srcs[keys[row - 1]] = source
             try:
                 return self._row_sources[iteration_coordinate]
             except KeyError:
